@@ -224,5 +224,9 @@ func (iter *UnsavedFastIterator) Close() error {
 
 // Error implements store.Iterator
 func (iter *UnsavedFastIterator) Error() error {
+	if iter.err == nil && iter.fastIterator != nil {
+		// errors of the underlying persisted-index iterator
+		return iter.fastIterator.Error()
+	}
 	return iter.err
 }
